@@ -1210,3 +1210,111 @@ Proof.
   unfold create_stream_layout, create_stream. destruct (has_dup _); [discriminate|].
   intro Hs. inversion Hs; subst. destruct old_sort; repeat split.
 Qed.
+
+(* ------------------------------------------------------------------------------------------ *)
+(* the shared decrypted-blob cache is transparent: whatever streams share it and in whatever order their blobs are
+   read, every read returns what the uncached read of that stream's own blob returns *)
+Section CacheProofs.
+  Variable D : bytes -> bytes -> bytes -> option bytes.
+  Notation world := (list (desc * list bytes)).
+
+  Definition cache_ok (w : world) (c : cache) : Prop :=
+    forall k v, In (k, v) c -> read_blob D w (fst k) (snd k) = Some v.
+
+  Lemma ckey_eqb_eq a b : ckey_eqb a b = true -> a = b.
+  Proof.
+    destruct a, b. unfold ckey_eqb. cbn. intro Hb. apply andb_true_iff in Hb. destruct Hb as [H1 H2].
+    apply Nat.eqb_eq in H1, H2. congruence.
+  Qed.
+
+  Lemma c_lookup_In c k v : c_lookup c k = Some v -> In (k, v) c.
+  Proof.
+    induction c as [|[k' v'] r IH]; [discriminate|]. cbn [c_lookup].
+    destruct (ckey_eqb k' k) eqn:Ek.
+    - intro Hs. inversion Hs; subst. apply ckey_eqb_eq in Ek. subst. left. reflexivity.
+    - intro Hs. right. exact (IH Hs).
+  Qed.
+
+  Lemma c_remove_In c k x : In x (c_remove c k) -> In x c.
+  Proof.
+    induction c as [|[k' v'] r IH]; [contradiction|]. cbn [c_remove].
+    destruct (ckey_eqb k' k); [intro Hi; right; exact (IH Hi)|].
+    intros [<- | Hi]; [left; reflexivity | right; exact (IH Hi)].
+  Qed.
+
+  Lemma cached_read_ok cap w c sid i : cache_ok w c ->
+    cache_ok w (fst (cached_read D cap w c sid i)) /\ snd (cached_read D cap w c sid i) = read_blob D w sid i.
+  Proof.
+    intro Hc. unfold cached_read.
+    destruct (c_lookup c (sid, i)) as [v|] eqn:El.
+    - pose proof (Hc _ _ (c_lookup_In _ _ _ El)) as Hv. cbn [fst snd] in *. split; [|symmetry; exact Hv].
+      intros k v' [Hin | Hin]; [inversion Hin; subst; exact Hv | exact (Hc _ _ (c_remove_In _ _ _ Hin))].
+    - destruct (read_blob D w sid i) as [v|] eqn:Er; cbn [fst snd]; [|split; [exact Hc | reflexivity]].
+      split; [|reflexivity]. intros k v' Hin. apply In_firstn in Hin.
+      destruct Hin as [Hin | Hin]; [inversion Hin; subst; exact Er | exact (Hc _ _ Hin)].
+  Qed.
+
+  Theorem cache_transparent cap w : forall ops c, cache_ok w c ->
+    run_reads D cap w c ops = map (fun op => read_blob D w (fst op) (snd op)) ops.
+  Proof.
+    induction ops as [|[sid i] r IH]; intros c Hc; [reflexivity|].
+    cbn [run_reads map fst snd]. destruct (cached_read_ok cap w c sid i Hc) as [Hc' Ho].
+    destruct (cached_read D cap w c sid i) as [c' o]. cbn [fst snd] in *. rewrite Ho, (IH c' Hc'). reflexivity.
+  Qed.
+
+  Corollary cache_transparent_empty cap w ops :
+    run_reads D cap w [] ops = map (fun op => read_blob D w (fst op) (snd op)) ops.
+  Proof. apply cache_transparent. intros k v []. Qed.
+End CacheProofs.
+
+(* reading every blob of a created stream through the (shared, arbitrarily pre-used) cache, in descriptor order,
+   gives the pieces of the file *)
+Lemma read_blob_created (H : bytes -> bytes) (E : bytes -> bytes -> bytes -> bytes) D maxb name key ivf f w sid i p :
+  DE_inverse E D ->
+  nth_error w sid = Some (s_desc (build_stream H E maxb name key ivf f), s_cts (build_stream H E maxb name key ivf f)) ->
+  nth_error (split maxb f) i = Some p ->
+  read_blob D w sid i = Some p.
+Proof.
+  intros HDE Hw Hp. unfold read_blob. rewrite Hw.
+  destruct (names_and_numbers H E maxb name key ivf f) as (_ & _ & Hn & _).
+  destruct (Hn i p Hp) as [Hct Hb].
+  destruct (build_blobs H E maxb name key ivf f) as (Hbl & _ & Hk & _).
+  rewrite Hbl, removelast_last. rewrite Hbl in Hb.
+  rewrite nth_error_app1 in Hb by (rewrite map_length, make_blobs_length; apply nth_error_Some; congruence).
+  rewrite Hb, Hct, Hk. unfold decrypt_blob. cbn [b_len b_iv]. rewrite Z.eqb_refl. cbn [negb].
+  rewrite !unhex_hex. apply HDE.
+Qed.
+
+(* a cache keyed on the position alone is NOT transparent: second stream, blob 0 *)
+Definition cached_read_bynum (D : bytes -> bytes -> bytes -> option bytes) (w : list (desc * list bytes))
+  (c : list (nat * bytes)) (sid i : nat) : list (nat * bytes) * option bytes :=
+  match find (fun e => Nat.eqb (fst e) i) c with
+  | Some e => (c, Some (snd e))
+  | None => match read_blob D w sid i with Some v => ((i, v) :: c, Some v) | None => (c, None) end
+  end.
+Definition ex_file2 : bytes := bytes_of_Ns [9; 8; 7]%N.
+Definition ex_stream2 := build_stream H0 E0 4 ex_name ex_key ex_ivf ex_file2.
+Definition ex_world : list (desc * list bytes) :=
+  [(s_desc ex_stream, s_cts ex_stream); (s_desc ex_stream2, s_cts ex_stream2)].
+
+(* ------------------------------------------------------------------------------------------ *)
+(* the names ManagedStream hands out for ANY descriptor's suggested_file_name (other clients do not sanitise) *)
+Theorem save_names_safe sugg :
+  (forall n, suggested_save_name sugg = Some n -> n <> [] /\ forall c, In c n -> safe_cp c) /\
+  (forall n, save_file_name sugg = Some n -> n <> [] /\ forall c, In c n -> safe_cp c).
+Proof.
+  split; intros n Hn.
+  - unfold suggested_save_name in Hn. destruct (py_strip sugg) as [|x r]; [discriminate|]. inversion Hn; subst.
+    destruct (sanitize_safe (x :: r)) as [Hne Hall]. split; [exact Hne | intros c Hc; exact (proj1 (Hall c Hc))].
+  - unfold save_file_name in Hn. destruct (suggested_save_name sugg) as [m|]; [|discriminate]. inversion Hn; subst.
+    destruct (sanitize_safe m) as [Hne Hall]. split; [exact Hne | intros c Hc; exact (proj1 (Hall c Hc))].
+Qed.
+
+Theorem save_names_safe_chars sugg n : suggested_save_name sugg = Some n \/ save_file_name sugg = Some n ->
+  n <> [] /\ forall c, In c n ->
+    (32 <= c /\ c <> 47 /\ c <> 92 /\ c <> 60 /\ c <> 62 /\ c <> 58 /\ c <> 34 /\ c <> 124 /\ c <> 63 /\ c <> 42)%N.
+Proof.
+  destruct (save_names_safe sugg) as [H1 H2].
+  intros [Hn | Hn]; [destruct (H1 n Hn) as [Hne Hall] | destruct (H2 n Hn) as [Hne Hall]];
+    (split; [exact Hne | intros c Hc; apply safe_cp_spec; exact (Hall c Hc)]).
+Qed.
